@@ -8,33 +8,52 @@ model that evaluates the tree itself (composition per unit mass, density, total
 mass / thickness) from independently read masses and densities, and with each
 other.  Hand-written wrappers on _mix_by_weight_pairs / _mix_by_volume_pairs
 (iterator argument materialised first) check the proportion and density
-postconditions on every internal call, including those of the grammar actions."""
+postconditions on every internal call, including those of the grammar actions.
+
+One case in five runs on a private PeriodicTable whose masses differ from the public
+ones (factor 1 .. 1.5 depending on Z): the components are Formula objects built on that
+table (half of the cases also give mix_by_* the table keyword, the string form always
+gets it); the model uses that table's masses and the result must hold only that table's
+atoms.  One case in ten is a percentage form that leaves 1e-12 .. 1e-6 percent to its
+last component (quantity ratios up to 1e14 in the call form)."""
 import sys
 
 RULE = ('one case = one random mixture tree (1-6 parts per level, nesting <= 2 (quick) / 3 (thorough), parts are '
         'compounds with or without density, single elements/isotopes/ions, nested mixtures and repeated groups; '
-        'absolute amounts log-uniform over 12 decades, percentages over 12 decades) evaluated as call form, as call '
+        'absolute amounts log-uniform over 12 decades, percentages over 12 decades, one case in ten with a '
+        'trace remainder of 1e-12..1e-6 percent for the last part; one case in five on a private table with other '
+        'masses, with or without the table keyword) evaluated as call form, as call '
         'form with rescaled formula units, and as string form; distinct = distinct derivation shapes (modes, nesting, '
-        'repeat groups, unit class per part, which quantities are zero, density tags, parenthesised top level) with '
+        'repeat groups, unit class per part, which quantities are zero, density tags, parenthesised top level, table and '
+        'table keyword, kind of trace remainder) with '
         'numbers and compounds abstracted; every case is non-trivial (at least one quantity and one oracle comparison)')
 SHARDS = {'quick': 8, 'thorough': 16}
 TIMEOUT = {'quick': 600, 'thorough': 3600}
 TECHNIQUE = ('runtime monitoring: tree-directed workload with a reference model of the mixture (independent masses, '
              'densities and unit tables), metamorphic relations call form == string form and f -> k*f, hand-written '
              'postcondition wrappers on _mix_by_weight_pairs/_mix_by_volume_pairs, sys.monitoring reach counters on the '
-             'five mixture parse actions')
+             'five mixture parse actions; private table with Z-dependent mass factors and an atom-identity check of the '
+             'result; percentage literals whose float sum is exact by construction')
 LEVEL_TEXT = ('Random mixture trees are run through mix_by_weight/mix_by_volume and through the formula-string grammar; '
               'composition per unit mass, per-component mass/volume shares, density, total_mass and thickness are '
               'compared to 1e-12 with a model that evaluates the tree itself, and the postconditions of the two internal '
               'mixers are checked on every call made by the grammar actions. Every unit and percent spelling of the '
-              'grammar must have been accepted at least once; held means held on the trees generated.')
+              'grammar must have been accepted at least once; held means held on the trees generated. A fifth of the trees '
+              'is built from Formula objects of a private table with different masses (result atoms must be that '
+              "table's), a tenth leaves 1e-12..1e-6 percent to the last component, which must be present in exactly "
+              'that proportion.')
 LEVEL_NOTE = ('Trusted: the tree generator/renderer pvmon/gen/mixtures.py and pvmon/gen/formulas.py (strings are unambiguous '
               'under the documented grammar), pvmon/ref/masses.py, own unit table, CPython Fraction/float.')
 ASSUMPTIONS = ['the documented grammar in doc/sphinx/guide/formula_grammar.rst plus the percent spellings of the grammar '
                'regexes are the specification of the string forms',
                'a repeated group (quantity)n inside a quantity of the same kind means the group n times',
                'quantities are plain decimals; stated percentages leave a remainder >= 1 (or exactly 0), so that '
-               '100 - sum is well conditioned',
+               '100 - sum is well conditioned, or (trace-remainder cases) a remainder of 1e-12..1e-6 where each stated '
+               'percentage means the double nearest to its text and every partial sum of these doubles is exact, so that '
+               '100 - sum has one value under exact arithmetic and under any floating-point summation order',
+               'components that are Formula objects keep their atoms: a mixture of Formula objects of a private table '
+               'consists of atoms of that table, with or without the table keyword (the keyword is documented as the '
+               'table used when parsing string components)',
                'volume units need a component density; 0 of a volume unit of a component without density is not generated',
                'tolerance 1e-12 relative (DESIGN 3.7)']
 
